@@ -332,7 +332,9 @@ func (e *Enc) pureResultFacts(name string, r Val) {
 	switch name {
 	case "fmt.Errorf", "errors.New":
 		if i, ok := r.(Ifc); ok {
-			e.assume(not(eq(i.Id, bv64(0))))
+			// a new error value: not nil and none of the package-level
+			// sentinels (their identities start at 0x7000…)
+			e.assume(and(not(eq(i.Id, bv64(0))), ult(i.Id, bv64(0x7000_0000_0000_0000))))
 		}
 	}
 }
